@@ -1,3 +1,5 @@
+//go:build verif_c20
+
 package main
 
 // C20 — reference codecs. Transcript ops (see lean/XlModel/Drv/C20.lean):
@@ -10,6 +12,7 @@ package main
 //   rng <hex>            rangeRefToCoordinates (hook)
 //   c2rng a b c d abs    sortCoordinates + coordinatesToRangeRef (hook)
 //   spell <hex>          SetCellValue(spelling) then GetCellValue(same spelling) finds it?
+//   api <hex>            which of the cell-name taking APIs accept the string (strictness at API level)
 //
 // Direct oracles (independent of the Lean model): round trips, injectivity,
 // strict A1 regexp, spelling equivalence over setter/getter pairs.
@@ -248,6 +251,64 @@ func c20spell(r *Run, s string) {
 	chk("GetCellType", ty1 == ty2)
 }
 
+// c20api: strictness at the API level. Every API taking a cell name must reject a string
+// that is not an A1 reference inside the grid (the getters/setters normalise the name before
+// decoding it, which must not widen what is accepted). Result: one letter per API, A=accepted R=rejected.
+func c20api(r *Run, s string) {
+	_, _, ok := specA1(s)
+	if len(s) > 64 {
+		return
+	}
+	f := xl.NewFile()
+	defer f.Close()
+	res := ""
+	call := func(fn func() error) {
+		acc := "R"
+		func() {
+			defer func() {
+				if p := recover(); p != nil {
+					acc = "P"
+				}
+			}()
+			if fn() == nil {
+				acc = "A"
+			}
+		}()
+		res += acc
+	}
+	call(func() error { return f.SetCellValue("Sheet1", s, "v") })
+	call(func() error { _, e := f.GetCellValue("Sheet1", s); return e })
+	call(func() error { _, e := f.GetCellFormula("Sheet1", s); return e })
+	call(func() error { _, e := f.GetCellType("Sheet1", s); return e })
+	call(func() error { return f.SetCellHyperLink("Sheet1", s, "https://example.com", "External") })
+	call(func() error { _, _, e := f.GetCellHyperLink("Sheet1", s); return e })
+	call(func() error { _, e := f.GetCellStyle("Sheet1", s); return e })
+	call(func() error { return f.SetCellFormula("Sheet1", s, "1+1") })
+	ln := r.Op("api "+hx(s), res)
+	r.Case("api:"+s, ok || strings.Contains(res, "A"))
+	r.Stat("api:" + res)
+	want := "RRRRRRRR"
+	if ok {
+		want = "AAAAAAAA"
+	}
+	if res != want {
+		kind := "accept-non-a1"
+		if ok {
+			kind = "reject-valid"
+		}
+		if strings.Contains(res, "P") {
+			kind = "panic"
+		}
+		r.Fail("api:"+kind, fmt.Sprintf("cell-name APIs on %q: %s (SetCellValue GetCellValue GetCellFormula GetCellType SetCellHyperLink GetCellHyperLink GetCellStyle SetCellFormula; A=accepted R=rejected), strict A1 says valid=%v", s, res, ok), ln, "api "+hx(s))
+	}
+}
+
+// strings whose Unicode upper/lower case mapping or look-alike shape could be mistaken for A1
+var c20lookalikes = []string{"ı1", "ſ1", "ı$1", "$ſ$1", "aı1", "İ1", "K1", "Å1", "Ａ1", "A１", "ǅ1", "ß1", "ŉ1", "A1\u0000",
+	// long accepted spellings: absolute forms at the far corner, zero-padded rows
+	"$XFD$1048576", "$xfd$1048576", "XFD1048576", "$AAA$1000000", "$ABC$0000012", "A0000000001", "$A$00000000000000000001", "$XFD$0001048576",
+	"a1", "A1", "$a$1", "xfd1048576", "xfe1", "A1048577", " A1", "A1 ", "A 1", "A1:B2", "Sheet1!A1", "", "A", "1", "$", "A0", "$A$0"}
+
 var c20alpha = []string{"A", "Z", "a", "z", "0", "1", "9", "$", "+", "-", " ", ":", "!", "."}
 
 func c20enum(r *Run, maxLen int) {
@@ -426,6 +487,33 @@ func runC20(r *Run, rng *Rng, replay string) {
 			c20spell(r, sp)
 		}
 	}
+	// 7. strictness at the API level: look-alikes, every string of length <= 3 over the alphabet, random strings
+	for _, s := range c20lookalikes {
+		c20api(r, s)
+	}
+	var rec3 func(prefix string, left int)
+	rec3 = func(prefix string, left int) {
+		if prefix != "" {
+			c20api(r, prefix)
+		}
+		if left == 0 {
+			return
+		}
+		for _, a := range c20alpha {
+			rec3(prefix+a, left-1)
+		}
+	}
+	rec3("", 3)
+	nApi := 1500
+	if thorough {
+		nApi = 20000
+	}
+	for i := 0; i < nApi; i++ {
+		c20api(r, c20randStr(rng))
+	}
+	for _, sp := range []string{"$XFD$1048576", "$xfd$1048575", "$ABC$0000012", "A0000000001", "$AAA$0000000000012"} {
+		c20spell(r, sp)
+	}
 	for _, s := range r.opsSample(10) {
 		r.Sample(s)
 	}
@@ -463,6 +551,8 @@ func c20replay(r *Run, path string) {
 			c20split(r, unhx(w[1]))
 		case "spell":
 			c20spell(r, unhx(w[1]))
+		case "api":
+			c20api(r, unhx(w[1]))
 		case "rng":
 			c20rng(r, unhx(w[1]))
 		case "xy2c":
